@@ -33,6 +33,9 @@ def consults(node, ctxname):
 
 def run(ctx, rep):
     ix, T = ctx.ix, ctx.typer
+    from .common import check_fast_paths
+    _fp_mods = ["jaqalpaq.core.circuitbuilder"]
+    check_fast_paths(ctx, rep, "C07.4", [f for f in ix.functions.values() if f.module in _fp_mods and (f.cls is None or T.is_visitor(f.cls))], None)
     builder = ix.cls(BUILDER)
 
     # ------------------------------------------------------------ C07.1
